@@ -3,6 +3,7 @@ package bcl
 import (
 	"fmt"
 	"reflect"
+	"sort"
 	"strings"
 	"unicode"
 	"unicode/utf8"
@@ -130,8 +131,16 @@ func copyBlock(v reflect.Value, block Block) error {
 		return err
 	}
 fields:
-	for fkey, fval := range block.Fields {
-		err = setField(fkey, fval)
+	// a fixed order, so that the outcome does not depend on map iteration:
+	// which of several errors is returned, and which value wins when
+	// more than one key maps to the same struct field
+	fkeys := make([]string, 0, len(block.Fields))
+	for fkey := range block.Fields {
+		fkeys = append(fkeys, fkey)
+	}
+	sort.Strings(fkeys)
+	for _, fkey := range fkeys {
+		err = setField(fkey, block.Fields[fkey])
 		if err != nil {
 			return err
 		}
